@@ -110,6 +110,12 @@ func cmdRoute(o opts) {
 
 	var vecs []routeVec
 	readVectors(o.vectors, &vecs)
+	if o.aux == "poolonly" {
+		// the worker pools alone (run by C15 under the race detector)
+		fixConcurrent(rec, vecs, drw, dl, 3000)
+		rec.Close()
+		return
+	}
 	// store and forward: groups of up to 6 vectors read by one reader, kept, then written by one writer
 	for g0 := 0; g0 < len(vecs); g0 += 6 {
 		grp := vecs[g0:min2(g0+6, len(vecs))]
@@ -185,7 +191,11 @@ func cmdRoute(o opts) {
 					if edit == "sigfields" && v.Var != "signed" {
 						continue
 					}
-					fixOne(rec, r, v, drw, dl, keyed, edit)
+					fixOne(rec, r, v, drw, dl, keyed, edit, false)
+					if keyed && edit != "all" {
+						// the node's incoming key has the same value as its outgoing key (one key for the whole network)
+						fixOne(rec, r, v, drw, dl, keyed, edit, true)
+					}
 				}
 			}
 		}
@@ -198,7 +208,7 @@ func cmdRoute(o opts) {
 	rec.Close()
 }
 
-func fixOne(rec *Rec, r *rand.Rand, v routeVec, drw *dialect.ReadWriter, dl []int, keyed bool, edit string) {
+func fixOne(rec *Rec, r *rand.Rand, v routeVec, drw *dialect.ReadWriter, dl []int, keyed bool, edit string, sameInKey bool) {
 	var outKey *frame.V2Key
 	keyJ := B{}
 	isV1 := v.Bytes[0] == 0xFE
@@ -215,6 +225,9 @@ func fixOne(rec *Rec, r *rand.Rand, v routeVec, drw *dialect.ReadWriter, dl []in
 		OutKey:           outKey,
 		HeartbeatDisable: true,
 	}
+	if sameInKey && outKey != nil {
+		node.InKey = frame.NewV2Key(keyJ)
+	}
 	if err := node.Initialize(); err != nil {
 		fatal("node: %v", err)
 	}
@@ -224,6 +237,9 @@ func fixOne(rec *Rec, r *rand.Rand, v routeVec, drw *dialect.ReadWriter, dl []in
 		}
 	}()
 	if rcd := fixWith(node, outKey, keyJ, r, v, drw, dl, edit); rcd != nil {
+		if sameInKey && outKey != nil {
+			rcd["var"] = rcd["var"].(string) + "_in_key_equals_out_key"
+		}
 		rec.Put(rcd)
 	}
 }
@@ -369,6 +385,58 @@ func fixConcurrent(rec *Rec, vecs []routeVec, drw *dialect.ReadWriter, dl []int,
 		}(w)
 	}
 	wg.Wait()
+	// the same pool on a node that signs (one outgoing key): the timestamps make the bytes differ from run to run, so there
+	// is no sequential pass to compare with - every job the next hop (a reader with the key) refuses is judged by the monitor,
+	// and so are the first three of each worker
+	kb := make([]byte, 32)
+	for i := range kb {
+		kb[i] = byte(7 * (i + 3))
+	}
+	knode := &gomavlib.Node{
+		Endpoints:        []gomavlib.EndpointConf{gomavlib.EndpointCustom{ReadWriteCloser: newBlockRWC()}},
+		Dialect:          findDialect("all"),
+		OutVersion:       gomavlib.V2,
+		OutSystemID:      10,
+		OutKey:           frame.NewV2Key(kb),
+		HeartbeatDisable: true,
+	}
+	if err := knode.Initialize(); err != nil {
+		fatal("node: %v", err)
+	}
+	defer knode.Close()
+	go func() {
+		for range knode.Events() {
+		}
+	}()
+	var v2only []routeVec
+	for _, v := range canon {
+		if v.Bytes[0] == 0xFD {
+			v2only = append(v2only, v)
+		}
+	}
+	if len(v2only) >= 2 {
+		kres := make([][]M, workers)
+		var kwg sync.WaitGroup
+		for w := 0; w < workers; w++ {
+			kres[w] = make([]M, jobs/2)
+			kwg.Add(1)
+			go func(w int) {
+				defer kwg.Done()
+				for i := range kres[w] {
+					kres[w][i] = fixWith(knode, knode.OutKey, B(kb), rand.New(rand.NewSource(int64(w*7000003+i))), v2only[(w+i)%len(v2only)], drw, dl, "all")
+				}
+			}(w)
+		}
+		kwg.Wait()
+		for w := range kres {
+			for i, b := range kres[w] {
+				if b != nil && (i < 3 || b["next_accepted"] != true || b["panic"] == true) {
+					b["var"] = b["var"].(string) + "_keyed_worker_pool"
+					rec.Put(b)
+				}
+			}
+		}
+	}
 	for w := 0; w < workers; w++ {
 		for i := 0; i < jobs; i++ {
 			a, b := solo[w][i], conc[w][i]
